@@ -12,6 +12,7 @@ package pos
 // stake, whose signing info exists, is not tombstoned, and whose jail time has passed
 //@ func validateUnjailMessage(ctx sdk.Ctx, msg types.MsgUnjail, k keeper.Keeper) (address sdk.Address, err sdk.Error)
 //@   props C09 C06
+//@   panics_declared
 //@   uses valinv
 //@   ensures err == nil ==> pos.has[msg.ValidatorAddr] && pos.vals[msg.ValidatorAddr].Jailed && pos.vals[msg.ValidatorAddr].Status == 2
 //@        && val(pos.vals[msg.ValidatorAddr].StakedTokens) >= pp_minstake && address == msg.ValidatorAddr
@@ -19,6 +20,8 @@ package pos
 //@
 //@ func handleMsgUnjail(ctx sdk.Ctx, msg types.MsgUnjail, k keeper.Keeper) (res sdk.Result)
 //@   props C09 C11 C06
+//@   panics_keep pos., auth.      // C11: a panicking handler leaves no trace (handler writes are not rolled back)
+//@   panics_declared              // ... and in fact never panics explicitly
 //@   uses valinv idxinv queueinv mininv
 //@   modifies pos.vals[msg.ValidatorAddr], pos.has[msg.ValidatorAddr], pos.idx[msg.ValidatorAddr], pos.stakesum
 //@   ensures [rejected] res.Code != 0 ==> unchanged(pos, auth)
@@ -30,6 +33,8 @@ package pos
 // C06: staked -> unstaking only, by the validator's own begin-unstake
 //@ func handleMsgBeginUnstake(ctx sdk.Ctx, msg types.MsgBeginUnstake, k keeper.Keeper) (res sdk.Result)
 //@   props C06 C11
+//@   panics_keep pos., auth.      // C11: a panicking handler leaves no trace (handler writes are not rolled back)
+//@   panics_declared              // ... and in fact never panics explicitly
 //@   uses valinv idxinv queueinv mininv
 //@   modifies pos.vals[msg.Address], pos.has[msg.Address], pos.idx[msg.Address], pos.stakesum, pos.queue[ctx_time(ctx) + pp_unstaking_time]
 //@   dead ret3
@@ -42,7 +47,11 @@ package pos
 // pool and exactly msg.Value is recorded as stake
 //@ func handleStake(ctx sdk.Ctx, msg types.MsgStake, k keeper.Keeper) (res sdk.Result)
 //@   props C04 C06 C11
+//@   panics_keep pos., auth.      // C11: a panicking handler leaves no trace (handler writes are not rolled back)
+//@   panics_declared              // ... and in fact never panics explicitly
 //@   uses bankinv valinv idxinv queueinv mininv
+//@   panics when val(msg.Value) < 0 || !denom_ok(pp_denom)      // NewCoin in ValidateValidatorStaking, before any write
+//@   requires val(msg.Value) < pow2(250)                         // ASSUMED: amounts are far below the 255-bit bound of Int
 //@   requires pk_addr(msg.PubKey) != modaddr("staked_tokens_pool") && pp_minstake >= 0 && msg.PubKey != nil && modreg("staked_tokens_pool")
 //@   modifies acct.id, acct.next, acct.coins, acct.addr, auth.bal[modaddr("staked_tokens_pool")], auth.has[modaddr("staked_tokens_pool")], auth.bal[pk_addr(msg.PubKey)], auth.has[pk_addr(msg.PubKey)]
 //@   modifies pos.vals[pk_addr(msg.PubKey)], pos.has[pk_addr(msg.PubKey)], pos.idx[pk_addr(msg.PubKey)], pos.stakesum, pos.sinfo[pk_addr(msg.PubKey)], pos.sinfohas[pk_addr(msg.PubKey)]
@@ -52,4 +61,17 @@ package pos
 //@   ensures [moved] res.Code == 0 ==> amt(auth.bal[modaddr("staked_tokens_pool")], pp_denom) == amt(old(auth.bal[modaddr("staked_tokens_pool")]), pp_denom) + val(msg.Value)
 //@        && amt(auth.bal[pk_addr(msg.PubKey)], pp_denom) == amt(old(auth.bal[pk_addr(msg.PubKey)]), pp_denom) - val(msg.Value)
 //@   ensures [backed] amt(auth.bal[modaddr("staked_tokens_pool")], pp_denom) - pos.stakesum == old(amt(auth.bal[modaddr("staked_tokens_pool")], pp_denom) - pos.stakesum)
+//@   ensures auth.supply == old(auth.supply)
+
+// C02/C11: MsgSend moves exactly msg.Amount between the two accounts or changes nothing; a panic (negative
+// amount: NewCoin) happens before any write
+//@ func handleMsgSend(ctx sdk.Ctx, msg types.MsgSend, k keeper.Keeper) (res sdk.Result)
+//@   props C02 C11
+//@   panics_keep pos., auth.
+//@   panics_declared
+//@   panics when val(msg.Amount) < 0 || !denom_ok(pp_denom)
+//@   uses bankinv
+//@   modifies acct.id, acct.next, acct.coins, acct.addr, auth.bal[msg.FromAddress], auth.has[msg.FromAddress], auth.bal[msg.ToAddress], auth.has[msg.ToAddress]
+//@   ensures [rejected] res.Code != 0 ==> auth.bal == old(auth.bal) && unchanged(pos)
+//@   ensures [moved] res.Code == 0 && msg.FromAddress != msg.ToAddress ==> amt(auth.bal[msg.FromAddress], pp_denom) == amt(old(auth.bal[msg.FromAddress]), pp_denom) - val(msg.Amount) && amt(auth.bal[msg.ToAddress], pp_denom) == amt(old(auth.bal[msg.ToAddress]), pp_denom) + val(msg.Amount)
 //@   ensures auth.supply == old(auth.supply)
